@@ -115,6 +115,12 @@ def configs():
         if "period" in params:
             out.append((f"{key}[p2]", key, dict(kw, period=2)))
             out.append((f"{key}[p20]", key, dict(kw, period=20)))
+        if key in ("EMA", "SMA", "KC", "RSI", "MACD", "BBANDS", "ATR"):
+            # a name that extends another member's name by "_<suffix>" (not a helper of it)
+            out.append((f"{key}[sfx]", key, dict(kw, name_suffix="high")))
+        if "multiplier" in params:
+            extra = {"input_value": "high"} if "input_value" in params and params["input_value"].default is not inspect.Parameter.empty else {}
+            out.append((f"{key}[m3]", key, dict(kw, multiplier=3.0, **extra)))
         if key == "Amorph":
             out.append(("Amorph[highest]", key, {"analysis": movement.highest, "args": {"indicator": "high", "length": 4}}))
     return out
@@ -281,6 +287,47 @@ def check_shared_list(ctx, cfg_a, cfg_b):
             return
 
 
+def check_timeframe_pair(col, cfg_a, cfg_b, seed, tf="T5"):
+    """two members on the same derived timeframe: an operation aimed at B (or removing B) in the middle of the stream
+    must leave A exactly as in a Hexital that only ever held A and was fed identically"""
+    n = 64
+    candles = stream("random", n, seed=seed + 5)
+    half = 31
+    stream_text = f"oracles.c13.stream('random',{n},seed={seed + 5})"
+
+    def feed(h, op=None, target=None):
+        h.append(gen.clone(candles[:half]))
+        if op is not None:
+            getattr(h, op)(target)
+        for c in gen.clone(candles[half:]):
+            h.append(c)
+        h.calculate()
+        return h
+
+    a_alone, exc = call(lambda: build(cfg_a, timeframe=tf))
+    if exc is not None:
+        return
+    base, exc = call(lambda: feed(Hexital("alone", [], [a_alone])))
+    if exc is not None:
+        return
+    want_c, want_r = [(c.timestamp, c.open, c.high, c.low, c.close, c.volume) for c in a_alone.candles], list(a_alone.as_list())
+    for op in ("purge", "recalculate", "remove_indicator"):
+        col.tick()
+        a, b = build(cfg_a, timeframe=tf), build(cfg_b, timeframe=tf)
+        if a.name == b.name:
+            return
+        col.scenario(("tf", cfg_a[0], cfg_b[0], op))
+        inp = {"A": {"indicator": cfg_a[1], **show_kw(cfg_a[2])}, "B": {"indicator": cfg_b[1], **show_kw(cfg_b[2])}, "timeframe": tf,
+               "names": [a.name, b.name], "stream": stream_text, "fed": f"{half} candles, then Hexital.{op}({b.name!r}), then the rest one by one"}
+        _, exc = call(lambda: feed(Hexital("pair", [], [a, b]), op, b.name))
+        got_c = [(c.timestamp, c.open, c.high, c.low, c.close, c.volume) for c in a.candles] if exc is None else None
+        if exc is not None or got_c != want_c or list(a.as_list()) != want_r:
+            what = (f"raised {type(exc).__name__}: {exc}" if exc is not None else
+                    (f"candles: {first_diff(want_c, got_c)}" if got_c != want_c else first_diff(want_r, list(a.as_list()))))
+            col.fail("timeframe-interference", f"{b.name}-{op}-changes-{a.name}", "hexital.core.hexital.Hexital." + op,
+                     f"Hexital.{op}({b.name!r}) half way through the stream changed {a.name} (same timeframe {tf}): {what}", inp)
+
+
 def run(tier, seed, focus=None):
     rnd = random.Random(seed)
     col = Col(PROP, seed, focus)
@@ -295,7 +342,9 @@ def run(tier, seed, focus=None):
     dropped = [c[0] for c in cfgs if ctx.baseline(c) is None]
     pairs = [(a, b) for i, a in enumerate(usable) for b in usable[i + 1:]]
     must = [("BBANDS", "SMA[high]"), ("BBANDS", "SMA"), ("BBANDS", "STDEV[high]"), ("ATR", "TR"), ("EMA[p2]", "EMA[p20]"),
-            ("SMA[p2]", "SMA[p20]"), ("SMA", "SMA[p20]"), ("KC", "TR"), ("Supertrend", "TR"), ("ADX", "ATR"), ("STDEVTHRES", "STDEV")]
+            ("SMA[p2]", "SMA[p20]"), ("SMA", "SMA[p20]"), ("KC", "TR"), ("Supertrend", "TR"), ("ADX", "ATR"), ("STDEVTHRES", "STDEV"),
+            ("EMA", "EMA[sfx]"), ("SMA", "SMA[sfx]"), ("KC", "KC[sfx]"), ("RSI", "RSI[sfx]"), ("MACD", "MACD[sfx]"), ("BBANDS", "BBANDS[sfx]"),
+            ("ATR", "ATR[sfx]"), ("KC", "KC[m3]"), ("Supertrend", "Supertrend[m3]"), ("STDEVTHRES", "STDEVTHRES[m3]"), ("KC[sfx]", "KC[m3]")]
     must = [(by_label[a], by_label[b]) for a, b in must if a in by_label and b in by_label]
     if thorough:
         chosen = pairs
@@ -314,11 +363,17 @@ def run(tier, seed, focus=None):
         check_shared_list(ctx, b, a)
     col.note(f"{len(shared_pairs)} pairs (both roles) as standalone indicators constructed over one shared candle list: "
              f"calculate both, B.purge(), B.recalculate()")
+    tf_pairs = [(by_label[x], by_label[y]) for x, y in (("EMA", "SMA"), ("SMA", "EMA"), ("RSI", "MACD"), ("ATR", "KC"), ("BBANDS", "EMA[p2]"), ("MACD", "ATR"))
+                if x in by_label and y in by_label]
+    tf_pairs += rnd.sample(pairs, min(len(pairs), 60 if thorough else 8))
+    for a, b in tf_pairs:
+        check_timeframe_pair(col, a, b, seed)
+    col.note(f"{len(tf_pairs)} pairs as members on one derived timeframe (T5): purge / recalculate / remove_indicator of B half way through the stream")
     col.note("configurations: " + ", ".join(f"{c[0]}->{ctx.baseline(c)['name']}" for c in usable[:40]))
     if dropped:
         col.note("configurations dropped because they raise on their own: " + ", ".join(dropped))
     bound = (f"{len(usable)} configurations enumerated from INDICATOR_MAP (small parameters; variants input 'high', period 2, "
-             f"period 20; {len(dropped)} dropped for raising alone) -> {len(pairs)} pairs with distinct names, "
+             f"period 20, a name_suffix extending another member's name, another multiplier; {len(dropped)} dropped for raising alone) -> {len(pairs)} pairs with distinct names, "
              f"{'all' if thorough else len(chosen)} checked in a Hexital (2 orders x 3 operations x 2 targets) and "
              f"{len(shared_pairs)} as standalone indicators on one list, on one {kind} stream of {n} candles; seed {seed}")
     return col.result(bound)
